@@ -143,9 +143,16 @@ def build_coq(ctx):
     bad = []
     for f in files:
         src = re.sub(r"\(\*.*?\*\)", "", open(f).read(), flags=re.S)
-        for rx in (FORBIDDEN, FORBIDDEN2):
-            for m in rx.finditer(src):
-                bad.append("%s: %s" % (os.path.relpath(f, COQ), m.group(0).strip()))
+        for m in FORBIDDEN.finditer(src):
+            bad.append("%s: %s" % (os.path.relpath(f, COQ), m.group(0).strip()))
+        depth = 0  # Variable / Hypothesis / Context are only legal inside a Section
+        for line in src.splitlines():
+            if re.match(r"\s*(Section|Module)\s+\w+", line) and not re.search(r":=", line):
+                depth += 1
+            elif re.match(r"\s*End\s+\w+\s*\.", line):
+                depth = max(0, depth - 1)
+            elif depth == 0 and FORBIDDEN2.match(line):
+                bad.append("%s: %s outside a section" % (os.path.relpath(f, COQ), line.strip()[:40]))
     if bad:
         ctx.broken.append(dict(kind="hygiene", what="forbidden construct in the development", detail="\n".join(bad)))
     # Print Assumptions of the property theorems (recompile the tiny props file to get its output)
@@ -196,7 +203,11 @@ def eval_shard(args):
     if rc != 0 or not m:
         return shard, None, out[-2000:], time.time() - t
     body = m.group(1).strip()
-    ids = re.findall(r"\d+", body)
+    pairs = re.findall(r"\((\d+),\s*\[([\d;\s]*)\]\)", body)
+    if pairs:
+        ids = [(i, [int(c) for c in re.findall(r"\d+", cs)]) for i, cs in pairs]
+    else:
+        ids = [(i, []) for i in re.findall(r"\d+", body)]
     return shard, ids, "", time.time() - t
 
 
@@ -209,7 +220,7 @@ def eval_shards(ctx, rep):
             if ids is None:
                 ctx.broken.append(dict(kind="correspondence", what="case shard %s does not evaluate in Coq" % shard, detail=err))
             else:
-                mism += [(shard, i) for i in ids]
+                mism += [(shard, i, codes) for i, codes in ids]
     for f in glob.glob(os.path.join(d, "cases_*.vo")) + glob.glob(os.path.join(d, "cases_*.glob")) + glob.glob(os.path.join(d, ".cases_*.aux")):
         os.remove(f)
     return mism
@@ -236,7 +247,7 @@ def load_known():
 
 
 def match_known(pid, v, known):
-    blob = json.dumps(v.get("replay"), sort_keys=True)
+    blob = str(v.get("what", "")) + " " + json.dumps(v.get("replay"), sort_keys=True)
     for k in known:
         if k.get("property") != pid or k.get("status") != "known":
             continue
@@ -304,17 +315,18 @@ def run(ctx, replay):
             for v in rep.get("oracle_violations", []):
                 v = dict(v, failing_input=True, stream=name)
                 ctx.violations.append(v)
-            for shard, cid in eval_shards(ctx, rep):
+            for shard, cid, codes in eval_shards(ctx, rep):
                 c = lookup_case(rep, cid)
-                mismatches.append(dict(stream=name, shard=shard, case_id=cid, case=c))
+                mismatches.append(dict(stream=name, shard=shard, case_id=cid, codes=codes, case=c))
     ctx.cov["coq_mismatches"] = len(mismatches)
     if mismatches:
         ctx.note("%d model/implementation mismatches" % len(mismatches))
         flagged = set((v.get("stream"), str(v.get("case_id"))) for v in ctx.violations)
-        decisive = cfg.get("mismatch_is_violation", False)
         for mm in mismatches[:20]:
             if (mm["stream"], str(mm["case_id"])) in flagged:
                 continue
+            dc = cfg.get("decisive_codes")
+            decisive = cfg.get("mismatch_is_violation", False) or (dc is not None and any(c in dc for c in mm.get("codes", [])))
             if decisive:
                 ctx.violations.append(dict(what="implementation differs from the proved model on a property-pinned observable",
                                            sig="model-mismatch", replay=mm, failing_input=True, stream=mm["stream"], case_id=mm["case_id"]))
